@@ -115,6 +115,24 @@ func (br *xmpReader) readAttribute(tag *Tag) (attr Attribute, err error) {
 		}
 	}
 
+	// white space may separate the last attribute, or the tag name, from the '>' or "/>" that ends the tag: there is no
+	// further attribute then (the attribute returned has no value and is ignored by the caller)
+	if len(buf) > 0 && buf[0] == '>' {
+		br.a = false
+		if _, err = br.Discard(1); err != nil {
+			err = errors.Wrap(err, "Attr (discard)")
+		}
+		return
+	}
+	if len(buf) > 1 && buf[0] == '/' && buf[1] == '>' {
+		tag.t = soloTag
+		br.a = false
+		if _, err = br.Discard(2); err != nil {
+			err = errors.Wrap(err, "Attr (discard)")
+		}
+		return
+	}
+
 	var d int
 	if attr.self, d, err = parseAttrName(buf); err != nil {
 		err = errors.Wrap(ErrNegativeRead, "Attr (name)")
